@@ -151,6 +151,8 @@ class World:
                 cfg.setdefault(item, True)
         if cfg:
             plan["pyro_config"] = cfg
+        if crng.random() < 0.08:
+            plan["debuglog"] = True     # the application runs with Pyro's logging at DEBUG (into a handler that discards)
         plan.setdefault("net", {})
         plan["net"].setdefault("seed", run_seed ^ 0x9E3779B9)
         if "sched" not in plan:
@@ -179,6 +181,18 @@ class World:
         for item, val in sorted((plan.get("pyro_config") or {}).items()):
             setattr(seams.config, item, val)
             ctx.probe("config:" + item)
+        log_was = None
+        if plan.get("debuglog"):
+            # log calls are really made (arguments evaluated, records built) and discarded by a NullHandler: no handler lock,
+            # no I/O; the harness's own logging.disable(CRITICAL) is lifted for the run
+            import logging as _lg
+            plog = _lg.getLogger("Pyro5")
+            log_was = (_lg.root.manager.disable, plog.level, plog.propagate, list(plog.handlers))
+            _lg.disable(_lg.NOTSET)
+            plog.setLevel(_lg.DEBUG)
+            plog.propagate = False
+            plog.handlers[:] = [_lg.NullHandler()]
+            ctx.probe("config:DEBUGLOG")
         import time as _t
         CURRENT.update(sched=sched, t0=_t.time(), hits=0, steps=-1, lines=-1)
         # exceptions that Python cannot raise anywhere (a generator's clean-up code failing when the generator is dropped, a
@@ -234,6 +248,13 @@ class World:
                                                "wall seconds without reaching a yield point (spinning in %s)" % (t.name, BUSY_AFTER_S, t.died[2])})
             leaked = sched.kill_all()
             seams.uninstall()
+            if log_was is not None:
+                import logging as _lg
+                plog = _lg.getLogger("Pyro5")
+                plog.handlers[:] = log_was[3]
+                plog.propagate = log_was[2]
+                plog.setLevel(log_was[1])
+                _lg.disable(log_was[0])
             _sys.unraisablehook = unraisable_was
             if gc_was:
                 gc.enable()
